@@ -19,7 +19,7 @@ class DefNet:
     @property
     def wires(self):
         ww = defaultdict(list)
-        [ww[dw.layer].append((int(dw.width), dw.wire_points)) for dw in self.routed if len(dw.wire_points) > 0]
+        [ww[dw.layer].append((int(dw.width) if dw.width is not None else None, dw.wire_points)) for dw in self.routed if len(dw.wire_points) > 0]
         return ww
 
     @property
